@@ -302,6 +302,10 @@ type pairResult struct {
 }
 
 func runPair(srvCfg *bfe_tls.Config, cliCfg *tls.Config, c2s []byte, s2cWrites ...[]byte) (res pairResult) {
+	return runPairVia(directServer(srvCfg), cliCfg, c2s, s2cWrites...)
+}
+
+func runPairVia(mk srvMaker, cliCfg *tls.Config, c2s []byte, s2cWrites ...[]byte) (res pairResult) {
 	s2c := bytes.Join(s2cWrites, nil)
 	cEnd, sEnd := bufPipe()
 	wd := newWatchdog(90*time.Second, cEnd, sEnd)
@@ -315,7 +319,7 @@ func runPair(srvCfg *bfe_tls.Config, cliCfg *tls.Config, c2s []byte, s2cWrites .
 	go func() {
 		var o srvOut
 		defer func() { sEnd.Close(); done <- o }()
-		srv := bfe_tls.Server(sEnd, srvCfg)
+		srv := mk(sEnd)
 		if o.err = srv.Handshake(); o.err != nil {
 			return
 		}
@@ -681,6 +685,8 @@ func c41CheckScsv(tb ev.TB, rec *ev.Rec, k *c41Scsv) {
 		if ff.Kind == "serverHello" {
 			key := "scsv-not-refused"
 			switch {
+			case k.V2:
+				key = "scsv-ignored-in-sslv2-hello"
 			case s.Max == 0:
 				key = "scsv-ignored-default-maxversion"
 			case ff.Resumed && haveTicket:
